@@ -184,24 +184,26 @@ def check_nesting(kinds):
             lines.append(pad_parent + "pass")
     # the above appends calls after all bodies, which breaks indentation order; build recursively instead
     src = build_nest(kinds)
-    ns = {"sys": sys}
-    exec(compile(src, "<nest>", "exec"), ns)
-    rec = {}
-    ns["top"](rec)
     problems = []
-    for i in range(len(kinds)):
-        path = ["n%d" % j for j in range(i + 1)]
-        want = rec.get("n%d" % i)
-        if want is None:
-            problems.append("harness: %s did not run" % path)
-            continue
-        try:
-            got = get_code(ns["top"], *path)
-        except Exception as ex:
-            problems.append("get_code(top, %s) raised %r" % (path, ex))
-            continue
-        if got is not want:
-            problems.append("get_code(top, %s) is %r, running code is %r" % (path, got, want))
+    # the same source is compiled twice: two equal-but-distinct trees of code objects; each must resolve to its own
+    for copy in (1, 2):
+        ns = {"sys": sys}
+        exec(compile(src, "<nest>", "exec"), ns)
+        rec = {}
+        ns["top"](rec)
+        for i in range(len(kinds)):
+            path = ["n%d" % j for j in range(i + 1)]
+            want = rec.get("n%d" % i)
+            if want is None:
+                problems.append("harness: %s did not run" % path)
+                continue
+            try:
+                got = get_code(ns["top"], *path)
+            except Exception as ex:
+                problems.append("get_code(top, %s) raised %r" % (path, ex))
+                continue
+            if got is not want:
+                problems.append("copy %d of the source: get_code(top, %s) is %r, running code is %r" % (copy, path, got, want))
     try:
         get_code(ns["top"], "nope")
         problems.append("get_code with a wrong nested name did not raise")
